@@ -364,6 +364,83 @@ def endpoint_tuple(ctx: Ctx, rule: str) -> None:
                "" if ok else "configure_on_endpoint no longer mirrors the end point tuple consistently")
 
 
+def constructor_table(ctx: Ctx, rule: str) -> None:
+    """Which parameters the constructor writes for which declared type: the branch taken is the branch of the declared type."""
+    from ..kinds import TableSpec, table_rule
+
+    fn = ctx.repo.func(INIT)
+    p = fn.params()
+    n1, n2 = p[2], p[3]
+    L, R, P, A = p[4], p[5], p[6], p[7]
+    defaults = [st for st in fn.node.body if isinstance(st, ast.If) and ast.unparse(st.test) in (f"{L} is None", f"{R} is None", f"{P} is None")]
+    body = [st for st in fn.node.body if not any(st is d for d in defaults)]
+    paths = PathEnum(None, max_paths=5000).block(body)
+    views = [v for v in (PathView(pth) for pth in paths) if v.feasible()]
+    for v_ in views:
+        v_.depth = 0
+
+    def enum(var, src, values):
+        rx_ = re.compile(r"^%s\['type'\] == '(\w+)'$" % re.escape(src))
+
+        def m(t):
+            mm = rx_.match(t)
+            if mm:
+                val = mm.group(1)
+                return lambda v, val=val: v[var] == val
+            return None
+        return m
+
+    def m_none(t):
+        return (lambda v: v["A"] == "absent") if t == f"{A} is None" else None
+
+    spec = TableSpec({"L": ["nic", "internetip", "custom", "other"], "R": ["custom", "externalip", "modeconfig", "other"], "P": ["ip", "dynip", "other"],
+                      "A": ["absent", "none", "pubkey", "psk", "other"]},
+                     [enum("L", L, None), enum("R", R, None), enum("P", P, None), enum("A", A, None), m_none], None)
+
+    TYPED = ("lan_net", "lan_netmask", "remote_net", "remote_netmask", "remote_modeconfig_ip", "peer_ip", "activation", "key_type", "psk")
+
+    def reference(v):
+        if v["L"] == "other" or v["R"] == "other" or v["P"] == "other" or v["A"] == "other":
+            return "raise:ValueError"
+        out = set()
+        if v["L"] in ("nic", "custom"):
+            out |= {("lan_net", 1), ("lan_netmask", 1), ("remote_net", 2), ("remote_netmask", 2)}
+        if v["R"] == "custom":
+            out |= {("lan_net", 2), ("lan_netmask", 2), ("remote_net", 1), ("remote_netmask", 1)}
+        if v["R"] == "modeconfig":
+            out.add(("remote_modeconfig_ip", 1))
+        out |= {("peer_ip", 2), ("activation", 2, "'ALWAYS'")}
+        if v["P"] == "ip":
+            out |= {("peer_ip", 1), ("activation", 1, "'ALWAYS'")}
+        else:
+            out.add(("activation", 1, "'PASSIVE'"))
+        out.add(("key_type", 0, {"absent": "'NONE'", "none": "'NONE'", "pubkey": "'PUBLIC'", "psk": "'PSK'"}[v["A"]]))
+        if v["A"] == "psk":
+            out.add(("psk", 0))
+        return frozenset(out)
+
+    spec.reference = reference
+
+    def outcome(view, val, free):
+        if view.path.exit == "raise":
+            return "raise:" + (PathEnum._raised_name(view.path.exit_node) or "?")
+        out = set()
+        for i, st in view.stmts(lambda s_: isinstance(s_, ast.Assign) and len(s_.targets) == 1 and isinstance(s_.targets[0], ast.Subscript)):
+            k = _store_key(st.targets[0], n1, n2)
+            if k is None or k[0].replace("vpnconn_", "") not in TYPED:
+                continue
+            stem = k[0].replace("vpnconn_", "")
+            if stem in ("activation", "key_type"):
+                out.add((stem, k[1], ast.unparse(st.value)))
+            else:
+                out.add((stem, k[1]))
+        return frozenset(out)
+
+    table_rule(ctx, rule, INIT, views, spec, outcome, ignore_atoms=lambda a: not (("['type'] ==" in a) or a == f"{A} is None"),
+               construct="constructor: local nic/custom -> left lan + right remote net; remote custom -> right lan + left remote net; modeconfig -> modeconfig ip; "
+               "peer ip -> left peer ip and ALWAYS, dynip -> PASSIVE; auth none/pubkey/psk -> NONE/PUBLIC/PSK (+psk); any other type -> ValueError")
+
+
 def key_agreement(ctx: Ctx, rule: str) -> None:
     """The tunnel parameters read back elsewhere in the package are parameters the tunnel constructor writes."""
     import re as _re
@@ -414,6 +491,7 @@ def key_agreement(ctx: Ctx, rule: str) -> None:
 
 def run(ctx: Ctx) -> None:
     ctx.call(key_agreement, "8")
+    ctx.call(constructor_table, "9")
     ctx.call(constructor_mirror, "1", "2", "3", "4")
     ctx.call(peer_variant_table, "4t")
     ctx.call(unsupported_raise, "5")
@@ -422,6 +500,10 @@ def run(ctx: Ctx) -> None:
 
 
 MUTANTS = [
+    ("internetip-branch-inverted", "vmnet/tunnel.py", "        elif local1[\"type\"] == \"internetip\":\n            netconfig1 = None", "        elif local1[\"type\"] != \"internetip\":\n            netconfig1 = None", "9"),
+    ("dynip-treated-as-ip", "vmnet/tunnel.py", "        elif peer1[\"type\"] == \"dynip\":\n            interface2 = node2.interfaces[", "        elif peer1[\"type\"] != \"dynip\":\n            interface2 = node2.interfaces[", "9"),
+    ("pubkey-gets-psk-type", "vmnet/tunnel.py", "            params[\"vpnconn_key_type_%s\" % name] = \"PUBLIC\"", "            params[\"vpnconn_key_type_%s\" % name] = \"PSK\"", "9"),
+    ("modeconfig-without-ip", "vmnet/tunnel.py", "        elif remote1[\"type\"] == \"modeconfig\":\n            netconfig2 = None\n            params[\"vpnconn_remote_modeconfig_ip_%s_%s\" % (name, node1.name)] = remote1[\n                \"modeconfig_ip\"\n            ]", "        elif remote1[\"type\"] == \"modeconfig\":\n            netconfig2 = None", "9"),
     ("route-mask-unwritten-key", "vmnet/network.py", "                    .get(\"vpnconn_remote_netmask\")\n                )\n            logging.debug(\n                \"Retrieved previous network", "                    .get(\"vpnconn_remote_mask\")\n                )\n            logging.debug(\n                \"Retrieved previous network", "8"),
     ("auth-none-refused", "vmnet/tunnel.py", "        if auth is None or auth[\"type\"] == \"none\":", "        if auth is None:", "5"),
     ("peer-variant-nic-unguarded", "vmnet/tunnel.py", "right_remote[\"nic\"] = left_local.get(\"nic\", \"lan_nic\")", "right_remote[\"nic\"] = left_local[\"nic\"]", "8n"),
